@@ -5,7 +5,7 @@ demo fails with it and passes without), run the property's check against the pat
 import json, os, re, shutil, subprocess, sys, time
 wt, prop, x = sys.argv[1:4]
 extra = sys.argv[4:]
-out = f"/verif/seeded/{prop}-{x}"
+out = f"/verif/seeded/{os.path.basename(wt.rstrip('/'))}-{x}"
 os.makedirs(out, exist_ok=True)
 def sh(cmd, cwd=wt, timeout=3600, env=None):
     p = subprocess.run(cmd, shell=True, cwd=cwd, stdout=subprocess.PIPE, stderr=subprocess.STDOUT, text=True, timeout=timeout, env=env)
@@ -29,7 +29,7 @@ m2 = re.search(r"test result: (\w+)\. (\d+) passed; (\d+) failed", o)
 meta["demo_with_patch"] = m2.group(0) if m2 else o[-300:]
 demo_fails = bool(m2) and m2.group(1) == "FAILED"
 # the check, against the patched worktree
-env = dict(os.environ, VERIF_REPO=wt, VERIF_TAG=f"-seed-{prop}{x}")
+env = dict(os.environ, VERIF_REPO=wt, VERIF_TAG=f"-seed-{os.path.basename(wt.rstrip('/'))}{x}")
 t0 = time.time()
 rc, o = sh("bin/check %s --no-evidence %s" % (prop, " ".join(extra)), cwd="/verif", env=env, timeout=4 * 3600)
 meta["check"] = {"cmd": f"VERIF_REPO={wt} bin/check {prop} --no-evidence {' '.join(extra)}", "exit": rc, "wall_s": round(time.time() - t0),
